@@ -138,11 +138,9 @@ impl ZbsdiffBuilder {
                     extra_data.push(self.new_data[new_pos + i]);
                 }
 
-                control_entries.push(ControlEntry::new(
-                    0,
-                    extra_chunk_size as i64,
-                    old_pos as i64, // Seek to maintain position tracking
-                ));
+                // The seek field is relative to the patcher's current old position,
+                // which already equals `old_pos` here (only diff chunks advance it).
+                control_entries.push(ControlEntry::new(0, extra_chunk_size as i64, 0));
 
                 new_pos += extra_chunk_size;
                 // old_pos stays the same for extra data
